@@ -4791,7 +4791,7 @@ struct gjBVal_info gjBValInfoTable[] = {
 	{FOAM_BVal_BIntSIPower,  GJ_Apply, 0,   "foamj.Math",   "sIPower"},
 	{FOAM_BVal_BIntBIPower,  GJ_Apply, 0,   "foamj.Math",   "bIPower"},
 	{FOAM_BVal_BIntPowerMod, GJ_Apply, 0,   "foamj.Math",   "powerMod"},
-	{FOAM_BVal_BIntLength,   GJ_Meth, 0,   "bitLength"},
+	{FOAM_BVal_BIntLength,   GJ_Apply, 0,   "foamj.Math",   "length"},
 	{FOAM_BVal_BIntShiftUp,  GJ_Apply, 0,   "foamj.Math",   "shiftUp"},
 	{FOAM_BVal_BIntShiftDn,  GJ_Apply, 0,   "foamj.Math",   "shiftDn"},
 	{FOAM_BVal_BIntShiftRem, GJ_Apply, 0,   "foamj.Math",   "shiftRem"},
